@@ -839,6 +839,8 @@ def same_value(got, want):
 
 def judge(case, rs):
     m = case.meta
+    if m["kind"] == "dictalg":
+        return judge_dictalg(case, rs)
     if m["kind"] != "hist":
         return judge_sweep(case, rs)
     start, hist = m["start"], m["hist"]
@@ -956,22 +958,141 @@ SWEEP_ARGS = ["1", "0", "[9]", "(\\q -> q)", "(\\q, w -> q)", '"a"', "(+)"]
 SKIP = set(c14.SKIP) | {"eval"}
 
 
+def sweep_shapes(f, X, args):
+    return ["%s(%s)" % (f, X), "%s %s %s" % (X, f, X)] + ["%s(%s, %s)" % (f, X, p) for p in args] + ["%s(%s, %s)" % (f, p, X) for p in args] + \
+           ["%s %s %s" % (X, f, p) for p in args[:3]] + ["%s(%s, %s, %s)" % (f, X, args[0], args[3 if len(args) > 3 else 0])]
+
+
 def cases(tier):
     fns = [f for f in c14.fns() if f not in SKIP]
     args = SWEEP_ARGS if tier != "quick" else SWEEP_ARGS[:4]
     for f in fns:
         for kind_, src in SWEEP_VALUES:
-            shapes = ["%s(x)" % f, "x %s x" % f] + ["%s(x, %s)" % (f, p) for p in args] + ["%s(%s, x)" % (f, p) for p in args] + \
-                     ["x %s %s" % (f, p) for p in args[:3]] + ["%s(x, %s, %s)" % (f, args[0], args[3 if len(args) > 3 else 0])]
+            shapes = sweep_shapes(f, "x", args)
+            fresh = sweep_shapes(f, "(%s)" % src, args)
             steps = []
             for sh in shapes:
-                steps.append('x := %s; y := x; try %s catch _ -> 0; [x, y]' % (src, sh))
+                steps.append('x := %s; y := x; r := try %s catch _ -> "ERR"; [x, y, r]' % (src, sh))
+            # the same calls on an operand nobody else holds: what a call returns must not depend on who else holds its argument
+            for sh in fresh:
+                steps.append('try %s catch _ -> "ERR"' % sh)
             yield Case(steps, {"kind": "sweep", "fn": f, "val": kind_, "src": src, "shapes": shapes}, pre=["struct Foo (x, y)"], iso=True,
                        opts={"step_ms": 800, "fuel": 20000, "compact": True, "cap": 16})
         yield Case(['%s' % v for _, v in SWEEP_VALUES], {"kind": "sweep-ref"}, pre=["struct Foo (x, y)"], iso=True, opts={"compact": True, "cap": 16})
+    for c in dictalg_cases(tier):
+        yield c
+
+
+# ---------------------------------------------------------------- (c) dict/set algebra under every holding configuration
+# The value of `l OP r` (and what `a OP= r` leaves in a) is a function of the operand values: it may not depend on whether an
+# operand is a temporary, is held by a variable, or is held by two. Operands are enumerated with common keys carrying
+# different values on the two sides and with either side the larger one; the reference is a Python dict.
+DA_LEFT = [{}, {1: 10}, {1: 10, 2: 20}, {1: 10, 2: 20, 3: 30}]
+DA_RIGHT = [{}, {1: 11}, {2: 21, 4: 41}, {1: 11, 2: 21, 5: 51}, {1: 11, 2: 21, 3: 31, 4: 41}]
+DA_OPS = ["||", "&&", "--", "||+"]
+DA_LCONF = ["temp", "var", "aliased", "inlist"]
+DA_RCONF = ["temp", "var"]
+DA_FORMS = ["infix", "call", "opassign"]
+
+
+def da_lit(d):
+    return "{%s}" % ", ".join("%d: %d" % kv for kv in d.items()) if d else "{}"
+
+
+def da_model(op, l, r):
+    if op == "||":
+        o = dict(l)
+        o.update(r)
+        return o
+    if op == "&&":
+        return {k: v for k, v in l.items() if k in r}
+    if op == "--":
+        return {k: v for k, v in l.items() if k not in r}
+    if op == "||+":
+        o = dict(l)
+        for k, v in r.items():
+            o[k] = o[k] + v if k in o else v
+        return o
+    raise KeyError(op)
+
+
+def da_canon(d):
+    return ["d", [[I(k), I(v)] for k, v in d.items()]]
+
+
+def dictalg_cases(tier):
+    for op in DA_OPS:
+        for li, l in enumerate(DA_LEFT):
+            for ri, r in enumerate(DA_RIGHT):
+                steps = []
+                confs = []
+                for lc in DA_LCONF:
+                    for rc in DA_RCONF:
+                        for form in DA_FORMS:
+                            if form == "opassign" and lc in ("temp", "inlist"):
+                                continue
+                            pre = "a := %s; " % da_lit(l) if lc != "temp" else ""
+                            if lc == "aliased":
+                                pre += "a2 := a; "
+                            if lc == "inlist":
+                                pre += "h := [a]; "
+                            pre += "b := %s; " % da_lit(r) if rc != "temp" else ""
+                            L_ = da_lit(l) if lc == "temp" else "a"
+                            R_ = da_lit(r) if rc == "temp" else "b"
+                            if form == "infix":
+                                body = "res := %s %s %s; " % (L_, op, R_)
+                            elif form == "call":
+                                body = "res := (%s)(%s, %s); " % (op, L_, R_)
+                            else:
+                                body = "a %s= %s; res := a; " % (op, R_)
+                            held = "[res, %s, %s, %s, %s]" % ("a" if lc != "temp" and form != "opassign" else "null", "a2" if lc == "aliased" else "null",
+                                                          "h" if lc == "inlist" else "null", "b" if rc != "temp" else "null")
+                            steps.append(pre + body + held)
+                            confs.append([lc, rc, form])
+                yield Case(steps, {"kind": "dictalg", "op": op, "l": li, "r": ri, "confs": confs}, iso=True, opts={"compact": True, "cap": 16})
+
+
+def judge_dictalg(case, rs):
+    m = case.meta
+    l, r = DA_LEFT[m["l"]], DA_RIGHT[m["r"]]
+    want = da_canon(da_model(m["op"], l, r))
+    out = []
+    for (lc, rc, form), src, res in zip(m["confs"], case.steps, rs):
+        sig = "C01 dictalg op=%s form=%s left=%s right=%s" % (m["op"], form, lc, rc)
+        if res.get("st") != "ok":
+            out.append(Violation(sig + " result=" + str(res.get("st")), "%s: %s %s" % (src, res.get("st"), (res.get("e") or "")[:160]), "ok", res.get("st")))
+            continue
+        v = norm(res["v"])[1]
+        exp = [want, da_canon(l) if (lc != "temp" and form != "opassign") else None, da_canon(l) if lc == "aliased" else None,
+               L(da_canon(l)) if lc == "inlist" else None, da_canon(r) if rc != "temp" else None]
+        names = ["the result", "a", "the alias a2", "the list holding a", "b"]
+        for nm, g, w in zip(names, v, exp):
+            if (g is None) != (w is None) or (w is not None and resort(g) != resort(w)):
+                out.append(Violation(sig + " result=wrong-" + ("result" if nm == "the result" else "operand"),
+                                     "%s: %s is %s, expected %s" % (src, nm, json.dumps(g)[:200], json.dumps(w)[:200]), w, g))
+                break
+    return out
 
 
 _REF = {}
+
+
+def deep_sorted(v):
+    if isinstance(v, list):
+        xs = [deep_sorted(e) for e in v]
+        if v and v[0] in ("l", "d") and len(v) > 1 and isinstance(v[1], list):
+            xs[1] = sorted(xs[1], key=lambda e: json.dumps(e, sort_keys=True))
+        return xs
+    return v
+
+
+def has_opaque(v):
+    """functions and other values whose canonical form carries an identity rather than a value"""
+    if isinstance(v, list):
+        if v and v[0] in ("fn", "F", "?", "o"):
+            return True
+        return any(has_opaque(e) for e in v)
+    return False
 
 
 def judge_sweep(case, rs):
@@ -979,15 +1100,26 @@ def judge_sweep(case, rs):
     if m["kind"] == "sweep-ref":
         return []
     out = []
-    for sh, r in zip(m["shapes"], rs):
+    ns = len(m["shapes"])
+    for i, (sh, r) in enumerate(zip(m["shapes"], rs)):
         st = r.get("st")
         if st != "ok":
             continue     # crash / hang / escaped control flow: C14's
         v = norm(r["v"])
         # x and y must both still equal the original value: compare with each other and with a pristine evaluation
-        if v[0] != "l" or len(v[1]) != 2:
+        if v[0] != "l" or len(v[1]) != 3:
             continue
-        x, y = v[1]
+        x, y, res = v[1]
+        rf = rs[ns + i] if ns + i < len(rs) else {}
+        # dicts and sets iterate in an order of their own (two separately built equal dicts differ in it, and a result may
+        # legitimately follow it: group_all, insert, first), so results are compared as multisets at every level, and
+        # multi-entry dict operands are left to family (c), which has an exact reference
+        unordered = m["val"] in ("dict", "set") or "{" in sh
+        if rf.get("st") == "ok" and not unordered and not has_opaque(res) and not has_opaque(norm(rf["v"])) and deep_sorted(res) != deep_sorted(norm(rf["v"])):
+            out.append(Violation("C01 sweep fn=%s kind=%s result=depends-on-sharing" % (m["fn"], m["val"]),
+                                 "x := %s; y := x; %s  gave %s, the same call on an unshared operand gave %s" % (m["src"], sh, json.dumps(res)[:200], json.dumps(norm(rf["v"]))[:200]),
+                                 norm(rf["v"]), res))
+            break
         if resort(x) != resort(y):
             out.append(Violation("C01 sweep fn=%s kind=%s result=argument-mutated" % (m["fn"], m["val"]),
                                  "x := %s; y := x; %s  left x = %s, y = %s" % (m["src"], sh, json.dumps(x)[:200], json.dumps(y)[:200]), y, x))
